@@ -10,6 +10,7 @@ import Acv.Model.ReportIds
 import Acv.Model.LexIndex
 import Acv.Gen.Tables
 import Acv.Model.Ld
+import Acv.Model.LdContext
 import Acv.Gen.PathGrammar
 import Acv.Gen.Pipeline
 /-! protocol operations: one JSON case in, one JSON line out -/
@@ -244,22 +245,69 @@ def canonIndexJson (ix : Ld.Index) : Json :=
     ("types", jstrs (sortStrs n.types)),
     ("props", Json.mkObj (n.props.map (fun p => (p.1, jstrs (sortStrs (p.2.map canonVal))))))])).toArray
 
-/-- c05: normalisation model on every serialisation inside the fragment + the index the abstract graph denotes -/
+/-- c05: normalisation model (with `@context` support) on every serialisation + the index the abstract graph denotes -/
 def opC05 (j : Json) : R Json := do
   let g ← decGraph (← fld j "graph")
   let docs ← fldArr j "docs"
   let outs ← docs.mapM fun d => do
-    let inFragment := fldBoolD d "fragment" true
-    if !inFragment then return Json.mkObj [("skipped", Json.bool true)]
     let text ← fldStr d "text"
     match Json.parse text with
     | .error e => return Json.mkObj [("outcome", Json.str s!"parse: {e}")]
     | .ok dj =>
-      match Ld.norm (toJs dj) with
+      -- `normC` = `norm` on documents without a top-level `@context`
+      match Ld.normC (toJs dj) with
       | none => return Json.mkObj [("outcome", Json.str "outside-fragment")]
       | some ix => return Json.mkObj [("outcome", Json.str "ok"), ("index", canonIndexJson ix),
           ("equivCanon", Json.bool (ix.equiv (Ld.canonIndex g)))]
   return Json.mkObj [("canon", canonIndexJson (Ld.canonIndex g)), ("docs", Json.arr outs.toArray)]
+
+/-- order-preserving encoding of a document: `{"o": [[k, v], …]}` for objects, `{"a": […]}` for arrays -/
+partial def decJs (j : Json) : R Ld.Js := do
+  match j with
+  | .null => return .null
+  | .bool b => return .bool b
+  | .num n => return .num n.mantissa
+  | .str s => return .str s
+  | .arr _ => throw "decJs: bare array"
+  | .obj _ =>
+    if has j "a" then return .arr (← (← fldArr j "a").mapM decJs)
+    let kvs ← (← fldArr j "o").mapM fun e => do
+      let a ← arr e
+      return (← str a[0]!, ← decJs a[1]!)
+    return .obj kvs
+
+def optStr (j : Json) (k : String) : Option String :=
+  match fldStr j k with | .ok s => some s | .error _ => none
+
+def indexOrNull : Option Ld.Index → Json
+  | some ix => canonIndexJson ix
+  | none => Json.null
+
+/-- c05s: the hypotheses and the conclusion of `norm_ser_ctx` / `expand_spelling` on concrete data: a graph, a
+context, a context-free document `d` and a candidate spelling `dp` -/
+def opC05s (j : Json) : R Json := do
+  let g ← decGraph (← fld j "graph")
+  let cj ← fld j "ctx"
+  let prefixes ← (← fldArr cj "prefixes").mapM fun e => do
+    let a ← arr e
+    return (← str a[0]!, ← str a[1]!)
+  let ctx : Ld.Ctx := ⟨prefixes, optStr cj "base", optStr cj "vocab"⟩
+  let d ← decJs (← fld j "d")
+  let dp ← decJs (← fld j "dp")
+  let nd := Ld.norm d
+  return Json.mkObj [
+    ("spellOk", Json.bool ctx.spellOk),
+    ("ctxOk", Json.bool ctx.ok),
+    ("gOk", Json.bool (Ld.gOk g)),
+    ("gIrisOk", Json.bool (Ld.gIrisOk ctx g)),
+    ("docOk", Json.bool (Ld.docOk ctx d)),
+    ("spDoc", Json.bool (Ld.spDoc ctx d dp)),
+    ("dIsDocOfG", Json.bool (match nd with | some ix => ix.equiv (Ld.canonIndex g) | none => false)),
+    ("expandsBack", Json.bool (match Ld.expandDoc (Ld.withContext ctx dp) with
+      | some e => Ld.Js.beq e (Ld.asGraph d) | none => false)),
+    ("canon", canonIndexJson (Ld.canonIndex g)),
+    ("normD", indexOrNull nd),
+    ("normDp", indexOrNull (Ld.normC (Ld.withContext ctx dp)))]
 
 def runOp (j : Json) : R Json := do
   match ← fldStr j "op" with
@@ -275,6 +323,7 @@ def runOp (j : Json) : R Json := do
   | "c14" => opC14 j
   | "c08" => opC08 j
   | "c05" => opC05 j
+  | "c05s" => opC05s j
   | "parse" => opParse j
   | op => throw s!"unknown op {op}"
 
